@@ -144,7 +144,9 @@ def known_class(f, what, sig):
 
 def PROOFS():
     from ..contracts import terms_c, matrices_c
-    return [("vf.contracts.matrices_c", matrices_c.FUNCTIONS), ("vf.contracts.terms_c", ["formulae.terms.terms.GroupSpecificTerm.eval_new_data"])]
+    return [("vf.contracts.matrices_c", matrices_c.FUNCTIONS), ("vf.contracts.terms_c", ["formulae.terms.terms.GroupSpecificTerm.eval_new_data"]),
+            # property lemma: evaluate, then index by a term's name = exactly that term's data
+            ("vf.contracts.lemmas_c", ["vf.proplemmas.c17.block_view", "vf.proplemmas.c17.block_view#group"])]
 
 
 def run(report, findings):
